@@ -206,8 +206,99 @@ class _Table:
         return r + self.S
 
 
+# ----------------------------------------------------------------------------------------
+# callbacks whose RESULT ALIASES THEIR ARGUMENT (round-4 miss C19-g).  `_Table` always builds a new tensor by advanced indexing, so an
+# estimator that overwrites a sample / chain-state / callback-result buffer in place was never seen.  A `_View` callback is the
+# ordinary function f(b) = b_i (value of variable i; one-hot: indicator "variable i has class c"; a batch of single variables:
+# f(b) = b) - and it returns its argument itself or a view of it (select / narrow / unbind / movedim / squeeze / view, wrapped by
+# transpose / unsqueeze / expand / view_as / slicing).  The logical function is an ordinary table, so the model and the
+# exhaustive-sample-space oracle judge it like any other function (log space: log f = b_i, i.e. f = exp(b_i)).
+# ----------------------------------------------------------------------------------------
+VIEW_HOWS = ("index", "select", "narrow", "unbind", "movedim", "squeeze", "view")
+VIEW_WRAPS = ("plain", "plain", "tt", "unsq", "expand", "view_as", "slice")
+IND_KINDS = ("direct", "is", "imh")    # estimators whose proposal is Independent(base, 1): samples [M, B, n(, V)]
+
+
+def _sel_last(r, k, how):
+    """entry k of the last axis, as a view of r"""
+    if how == "select":
+        return r.select(-1, k)
+    if how == "narrow":
+        return r.narrow(-1, k, 1).squeeze(-1)
+    if how == "unbind":
+        return r.unbind(-1)[k]
+    if how == "movedim":
+        return r.movedim(-1, 0)[k]
+    if how == "squeeze" and r.shape[-1] == 1:
+        return r.squeeze(-1)
+    if how == "view" and r.is_contiguous():
+        return r.view(-1, r.shape[-1])[:, k].view(r.shape[:-1])
+    return r[..., k]
+
+
+class _View:
+    """FunctionOnSample that returns (a view of) the sample tensor it is given; spec = {i, c, how, wrap}"""
+
+    def __init__(self, case, spec, independent=True):
+        self.case, self.spec, self.ind = case, spec, independent
+        self.aliased = 0
+
+    def __call__(self, b):
+        sp, r = self.spec, b
+        if self.case["dtype"] == "onehot":
+            r = _sel_last(r, sp["c"], sp["how"])
+        if self.ind:
+            r = _sel_last(r, sp["i"], sp["how"])
+        w = sp.get("wrap", "plain")
+        if w == "tt" and r.dim() >= 2:
+            r = r.transpose(0, 1).transpose(0, 1)
+        elif w == "unsq":
+            r = r.unsqueeze(0)[0]
+        elif w == "expand":
+            r = r.unsqueeze(-1).expand(*r.shape, 3)[..., 2]
+        elif w == "view_as":
+            r = r.view_as(r)
+        elif w == "slice":
+            r = r[:]
+        self.aliased += int(r.untyped_storage().data_ptr() == b.untyped_storage().data_ptr())
+        return r
+
+
+def _view_values(case, spec, independent):
+    """the logical function of a _View: its value per joint outcome"""
+    n, V = case["n"], case["V"]
+    vals = []
+    for o in range(V ** n if independent else V):
+        d = (o // V ** (n - 1 - spec["i"])) % V if independent else o
+        vals.append(int(d == spec["c"]) if case["dtype"] == "onehot" else d)
+    return vals
+
+
+def _callback(case, pre, th, phi, independent=True, log=False):
+    """the callable handed to the estimator for f (pre = 'f') or the control variate (pre = 'c')"""
+    vw = case.get(pre + "view")
+    if vw is None:
+        return _Table(case, pre, th, phi, independent=independent, log=log)
+    return _View(case, vw, independent)
+
+
+def _linear(case, pre, th, phi, independent=True):
+    """harness-side evaluation of the same logical function in linear space, always as a new tensor"""
+    vw = case.get(pre + "view")
+    if vw is None:
+        return _Table(case, pre, th, phi, independent=independent)
+    v = _View(case, vw, independent)
+    return (lambda b: v(b).exp()) if case.get("is_log") else (lambda b: v(b) + 0)
+
+
 def _table_fr(case, pre, j):
     """exact table of one batch element: values and derivative tables per direction (theta_k..., phi)"""
+    if case.get(pre + "view") is not None:
+        # log space: the callback hands over log f = b_i, the linear-space table is exp(b_i) (the float64 value of e as an exact
+        # rational: 1e-16 relative, far inside the 1e-8 tolerance)
+        vals = [Fr(math.exp(v)) if case.get("is_log") else Fr(v)
+                for v in _view_values(case, case[pre + "view"], case["kind"] in IND_KINDS)]
+        return vals, [[Fr(0)] * len(vals) for _ in range(len(_flat(case["theta"][j])) + 1)]
     th = [Fr(x, 16) for x in _flat(case["theta"][j])]
     if case["param"] == "logits":  # theta itself is irrational there: f may not depend on it
         assert not any(_flat(case[pre + "A"][j]))
@@ -283,7 +374,7 @@ def est_run_impl(case):
     phi = torch.tensor(case["phi"] / 4, dtype=F64, requires_grad=True)
     is_log = case.get("is_log", False)
     S = float(case.get("lshift", 0.0)) if is_log else 0.0
-    f = _Table(case, "f", th, phi, log=is_log)
+    f = _callback(case, "f", th, phi, log=is_log)
     params = [th, phi]
     res = {"out": [], "exc": None}
     try:
@@ -291,9 +382,9 @@ def est_run_impl(case):
             dist = _mkdist(case, th)
             cv, cvm = None, None
             if case["cv"]:
-                cv = _Table(case, "c", th, phi, log=is_log)
+                cv = _callback(case, "c", th, phi, log=is_log)
                 allb = _sample_tensor(case, list(range(nout)), B)
-                cvm = (dist.log_prob(allb).exp() * _Table(case, "c", th, phi)(allb)).sum(0)
+                cvm = (dist.log_prob(allb).exp() * _linear(case, "c", th, phi)(allb)).sum(0)
                 if is_log:
                     cvm = cvm.log() + S
             if case.get("cv_alias") and cv is not None:
@@ -346,6 +437,7 @@ def est_run_impl(case):
                 row.append([float(v[j])] + [[float(x) for x in g.reshape(-1)] for g in gs])
             res["out"].append(row)
         res["th"] = th
+        res["aliased"] = getattr(f, "aliased", 0) + (getattr(cv, "aliased", 0) if kind == "direct" and cv is not f else 0)
     except Exception as e:  # no exception is a legal outcome here
         res["exc"] = exc_kind(e) + ": " + str(e)[:200]
     return res
@@ -500,7 +592,7 @@ def enum_run_impl(case):
         else:
             th = _theta_tensor(case, "theta")  # [B, 1] or [B, 1, V]
             dist = _mkdist(case, th[:, 0], independent=False)
-            f = _Table(case, "f", th, phi, independent=False, log=is_log)
+            f = _callback(case, "f", th, phi, independent=False, log=is_log)
         if case.get("ctor") == "kw":
             est = E.EnumerateEstimator(proposal=dist, func=f, is_log=is_log)
         else:
@@ -631,6 +723,19 @@ class _CV:
         return r.log() + self.S if self.log else r
 
 
+def _zcb(case, eta, log=False, base=0.0, lin=False):
+    """callback on RELAXED samples (control variate of RELAX, func of the reparameterisation estimator): the REBAR-like `_CV`, or -
+    case['zview'] - the function c(z) = z_c (batch of single logistic variables: c(z) = z) returned as (a view of) z itself;
+    in log space the estimator is handed log c = z_c.  lin=True: the harness's own linear-space evaluation, a new tensor"""
+    zv = case.get("zview")
+    if zv is None:
+        return _CV(case, eta, log=log, base=base)
+    v = _View(case, zv, False)
+    if not lin:
+        return v
+    return (lambda z: v(z).exp()) if case.get("is_log") else (lambda z: v(z) + 0)
+
+
 def relaxed_run_impl(case):
     """One call of the estimator on scripted uniforms u (rsample) and v (csample)."""
     from pydrobert.torch import estimators as E
@@ -644,7 +749,7 @@ def relaxed_run_impl(case):
     v = (torch.tensor(case["v"], dtype=F64) / 64).reshape(shape)
     is_log = bool(case.get("is_log", False))
     S = float(case.get("lshift", 0.0)) if is_log else 0.0
-    f = _Table(case, "f", th, phi, independent=False, log=is_log)
+    f = _callback(case, "f", th, phi, independent=False, log=is_log)
     params = [th, phi, eta]
     res = {"exc": None}
     try:
@@ -654,11 +759,11 @@ def relaxed_run_impl(case):
             script = [u]
         elif case["kind"] == "reparam":
             # ReparameterizationEstimator on the relaxed sample itself: func(z) = base + eta * w . sigma(z / temp) (> 0)
-            est = E.ReparameterizationEstimator(dist, _CV(case, eta, log=is_log, base=case["base"] / 4), M, is_log=is_log)
+            est = E.ReparameterizationEstimator(dist, _zcb(case, eta, log=is_log, base=case["base"] / 4), M, is_log=is_log)
             script = [u]
         else:
-            cv = _CV(case, eta)
-            est = _ctor(case, E.RelaxEstimator, [("proposal", dist), ("func", f), ("mc_samples", M), ("cv", _CV(case, eta, log=is_log))],
+            cv = _zcb(case, eta, lin=True)
+            est = _ctor(case, E.RelaxEstimator, [("proposal", dist), ("func", f), ("mc_samples", M), ("cv", _zcb(case, eta, log=is_log))],
                         {"is_log": is_log} if (is_log or case.get("ctor") != "kw") else {})
             script = [u, v]
         r, p1, p2 = _patched(script)
@@ -680,7 +785,7 @@ def relaxed_run_impl(case):
             # optional state: the variance-minimising branch (proposal_params / cv_params given) only redirects the gradient of the
             # control variate's parameters; the value and the gradient w.r.t. the distribution's parameters are those of the plain call
             eta2 = eta.detach().clone().requires_grad_(True)    # (the branch hooks the gradient of its cv parameter: own leaf)
-            est2 = E.RelaxEstimator(dist, f, M, _CV(case, eta2, log=is_log), proposal_params=[th], cv_params=[eta2], is_log=is_log)
+            est2 = E.RelaxEstimator(dist, f, M, _zcb(case, eta2, log=is_log), proposal_params=[th], cv_params=[eta2], is_log=is_log)
             r, p1, p2 = _patched(script)
             with p1, p2:
                 out2 = est2()
@@ -710,7 +815,7 @@ def relaxed_run_impl(case):
             rows.append([float(out[j])] + [[float(x) for x in g.reshape(-1)] for g in gs])
         res["out"] = rows
         if case["kind"] == "reparam":
-            fz = _CV(case, eta, base=case["base"] / 4)(z)   # linear-space values of func on the implementation's own z
+            fz = _zcb(case, eta, base=case["base"] / 4, lin=True)(z)   # linear-space values of func on the implementation's own z
             res["fz"] = [[[float(fz[m, j])] + [[float(x) for x in (torch.zeros_like(p_) if g is None else g).reshape(-1)]
                                                 for g, p_ in zip(torch.autograd.grad(fz[m, j], params, retain_graph=True,
                                                                                       allow_unused=True), params)]
@@ -793,7 +898,11 @@ def imh_run_impl(case):
     B, N = case["B"], case["N"]
     th = _theta_tensor(case, "theta")
     phi = torch.tensor(0.0, dtype=F64)
-    f = _Table(case, "f", th.detach(), phi)
+    is_log = bool(case.get("is_log", False))
+    f = _callback(case, "f", th.detach(), phi, log=is_log)
+    if case.get("fmode"):
+        f = _Scratch(f, case["fmode"])
+    ikw = {"is_log": True} if is_log else {}
     res = {"exc": None, "calls": 0}
     try:
         dist = _mkdist(case, th.detach())
@@ -815,20 +924,28 @@ def imh_run_impl(case):
         if case["given"] is not None:
             init = torch.cat([_sample_tensor(case, [case["given"][j]], 1) for j in range(B)], 1)
             kw["initial_sample"] = init if case.get("given_lead", True) else init[0]
+            init_keep = kw["initial_sample"].clone()
         if case.get("ctor") == "kw":
             est = E.IndependentMetropolisHastingsEstimator(proposal=dist, func=f, mc_samples=N, density=dens, burn_in=case["burn"],
-                                                           initial_sample_tries=case["tries"], **kw)
+                                                           initial_sample_tries=case["tries"], **kw, **ikw)
         elif case.get("ctor") == "pos":
-            est = E.IndependentMetropolisHastingsEstimator(dist, f, N, dens, case["burn"], kw.get("initial_sample"), case["tries"])
+            est = E.IndependentMetropolisHastingsEstimator(dist, f, N, dens, case["burn"], kw.get("initial_sample"), case["tries"],
+                                                           *([True] if is_log else []))
         else:
             est = E.IndependentMetropolisHastingsEstimator(dist, f, N, dens, burn_in=case["burn"],
-                                                           initial_sample_tries=case["tries"], **kw)
+                                                           initial_sample_tries=case["tries"], **kw, **ikw)
         us = (torch.tensor(case["us"], dtype=F64) / 64).reshape(N, B)
         r, p1, p2 = _patched([us])
         with p1, p2:
             v = est()
+        if is_log:
+            res["raw"] = [float(x) for x in v.reshape(-1)]
+            v = v.exp()       # log of the plain average of exp(log f): judged in linear space
         res["out"] = [float(x) for x in v.reshape(-1)]
         res["calls"] = state["k"]
+        res["aliased"] = getattr(f, "aliased", None)
+        if case["given"] is not None:
+            res["initial_unchanged"] = bool(torch.equal(kw["initial_sample"], init_keep))
         if case.get("twice"):
             # call history: the same estimator object run again on the same proposals and uniforms (nothing may be carried over)
             state["k"] = 0
